@@ -50,10 +50,10 @@ def worker_setup(ctx):
 
 
 def quant_modules(exported):
-    from plinio.methods.mps.quant.nn import QuantConv2d, QuantLinear, QuantIdentity
+    from plinio.methods.mps.quant.nn import QuantConv1d, QuantConv2d, QuantLinear, QuantIdentity
     out = {}
     for n, m in exported.named_modules():
-        if isinstance(m, (QuantConv2d, QuantLinear, QuantIdentity)):
+        if isinstance(m, (QuantConv1d, QuantConv2d, QuantLinear, QuantIdentity)):
             out[n] = m
     return out
 
@@ -83,7 +83,8 @@ def qprec(q):
 def run_case(case, ctx):
     from plinio.methods.mps.quant.nn import QuantIdentity
     rng = random.Random(case['prog_seed'])
-    prog = mpslib.gen_mps_program(rng, allow_reuse=True)
+    prog = mpslib.gen_mps_program(rng, allow_reuse=True,
+                                  family='1d' if case['prog_seed'] % 5 == 4 else '2d')
     temp = 10 ** (math.log10(0.05) + case['log_temp'] * (math.log10(20) - math.log10(0.05)))
     try:
         model, mps, xs = mpslib.convert_mps(prog, case['seed'], case['w_prec'], case['a_prec'],
